@@ -295,7 +295,16 @@ func runR17(c *Ctx, r *R, read bool) {
 		// allocations that the compiler attributes to this line because a callee was inlined here
 		inlinedHere := escInlined[fmt.Sprintf("%s:%d", s.file, s.line)]
 		attributed := ""
-		if strings.HasPrefix(s.what, "compiler:") {
+		// ... but not the boxing of an argument written on this line (checkIndex(ok, "...", i): `i escapes to heap`):
+		// the conversion to an interface happens in the caller, before the inlined body and on every path
+		callSiteExpr := false
+		if strings.HasPrefix(s.what, "compiler: ") && strings.HasSuffix(s.what, " escapes to heap") {
+			expr := strings.TrimSuffix(strings.TrimPrefix(s.what, "compiler: "), " escapes to heap")
+			if isPlainOperand(expr) && wordIn(txt, expr) {
+				callSiteExpr = true
+			}
+		}
+		if strings.HasPrefix(s.what, "compiler:") && !callSiteExpr {
 			for _, cal := range inlinedHere {
 				sn := simpleName(cal)
 				if coneNames[sn] {
@@ -436,3 +445,36 @@ func runR17_3(c *Ctx, r *R) {
 }
 
 var _ = ast.Inspect
+
+// isPlainOperand: an identifier or selector chain (i, x.n): the form of an argument that is boxed at a call site.
+func isPlainOperand(e string) bool {
+	if e == "" {
+		return false
+	}
+	for _, r := range e {
+		if !(r == '_' || r == '.' || (r >= '0' && r <= '9') || (r >= 'a' && r <= 'z') || (r >= 'A' && r <= 'Z')) {
+			return false
+		}
+	}
+	return !(e[0] >= '0' && e[0] <= '9')
+}
+
+// wordIn: e occurs in line as a whole token.
+func wordIn(line, e string) bool {
+	isW := func(b byte) bool {
+		return b == '_' || b == '.' || (b >= '0' && b <= '9') || (b >= 'a' && b <= 'z') || (b >= 'A' && b <= 'Z')
+	}
+	for i := 0; i+len(e) <= len(line); i++ {
+		if line[i:i+len(e)] != e {
+			continue
+		}
+		if i > 0 && isW(line[i-1]) {
+			continue
+		}
+		if j := i + len(e); j < len(line) && isW(line[j]) {
+			continue
+		}
+		return true
+	}
+	return false
+}
